@@ -512,3 +512,10 @@ def no_stale_results(db, ctx):
 def offset_tables(db, ctx):
     from . import C08
     C08.b2c_source(db, ctx)
+
+
+@rule("C19.mode-override", "a per-call mode override (tokenize(mode=..), restored afterwards) analyses in the requested mode from the first call on, also on a "
+                           "tokenizer with restricted fields (re-evaluation of C09.pairing: set_mode must request the split list of the mode being entered)")
+def mode_override(db, ctx):
+    from . import C09
+    C09.pairing(db, ctx)
